@@ -173,6 +173,9 @@ var paramArg = map[string]int{"name": 0, "endOffset": 1, "limit": 2, "scale": 1}
 func runC19(c *Ctx) {
 	p := c.P
 	s := p.Selectors()
+	s.checkErrorsNotSwallowed(c, "errors-not-swallowed", func(f *ssa.Function) bool {
+		return inPkgs("client", "api")(f) || (inPkgs("app")(f) && s.IsRunnerMethod(f))
+	}, "the remote caller would be told that a failed operation succeeded")
 	routes := p.routesOf()
 	pcApi := p.Named("api", "PcApi")
 
@@ -524,6 +527,32 @@ func runC19(c *Ctx) {
 			}
 			if afterAnswer && strings.HasPrefix(kind, "op:") {
 				return
+			}
+			// on the success edge of an operation the handler answers: every path to the return writes a reply
+			// (directly or through a responder) - an empty 200 cannot be decoded by the client
+			if strings.HasPrefix(kind, "op:") {
+				resp := responders(h)
+				isAnswer := func(x ssa.Instruction) bool {
+					xc, isC := x.(*ssa.Call)
+					if !isC {
+						return false
+					}
+					if isGinJSON(xc) {
+						return true
+					}
+					if sc := xc.Call.StaticCallee(); sc != nil && isOneOfFn(sc, resp) {
+						return true
+					}
+					o := CalleeObj(&xc.Call)
+					return o != nil && o.Pkg() != nil && o.Pkg().Path() == "github.com/gin-gonic/gin" && (o.Name() == "Status" || o.Name() == "String" || o.Name() == "AbortWithStatusJSON" || o.Name() == "Redirect" || o.Name() == "Data")
+				}
+				silent := false
+				for x := range Reach([]Pt{after(call)}, isAnswer, ErrNilEdge(call, true)) {
+					if _, isRet := x.(*ssa.Return); isRet {
+						silent = true
+					}
+				}
+				c.Check(!silent, r5, "success-answer:"+key+":"+kind, p.InstrPos(call), "a successful operation is answered", "after "+kind+" succeeded a path of the handler returns without writing a reply: the client gets an empty 200 body, fails to decode it and reports an error for an operation that was carried out")
 			}
 			if !tested {
 				// the error is handed to a responder that tests it and answers
